@@ -4,8 +4,10 @@ import (
 	"context"
 	"errors"
 	"fmt"
+	sebufhttp "github.com/SebastienMelki/sebuf/http"
 	"net/http"
 	"sort"
+	"strings"
 
 	"google.golang.org/protobuf/proto"
 	"google.golang.org/protobuf/reflect/protoreflect"
@@ -140,7 +142,14 @@ func c06Unit(j *Job, u *JobUnit) error {
 				record("resp:"+devClass(p), base, p.Msg, nil)
 				return true
 			})
+			// the handler-error family: the text an error may carry (ordinary, empty, non-ASCII with quotes and a newline, long) and
+			// the built-in error message returned as such, filled and empty
 			record("handler_error", base, nil, errors.New("boom"))
+			record("handler_error_empty_text", base, nil, errors.New(""))
+			record("handler_error_special_text", base, nil, errors.New("héllo \"quoted\"\nline2 ✓"))
+			record("handler_error_long_text", base, nil, errors.New(strings.Repeat("long text ", 300)))
+			record("handler_error_message", base, nil, &sebufhttp.Error{Message: "typed boom"})
+			record("handler_error_message_empty", base, nil, &sebufhttp.Error{})
 		}
 	}
 	// every message of the unit: default and fully populated value in documented form
